@@ -65,7 +65,7 @@ def post_for(op, dests, srcs):
     raise KeyError(k)
 
 
-def gen_unit(opname, mode='spec', tier='quick'):
+def gen_unit(opname, mode='spec', tier='quick', bounded_n=None):
     """mode 'spec': full functional contract; mode 'frame': requires + assigns only (property C03)."""
     op = OPS[opname]
     fn = 'emulate_' + opname
@@ -105,17 +105,22 @@ def gen_unit(opname, mode='spec', tier='quick'):
                          arr('src', 0, 1, '((offset + (long)__gk + 1) >> 1)')]
     elif k in ('ldresnear', 'ldreslin'):
         b, c = scal(1), scal(2)
-        # 16.16 fixed point; start and step non-negative, position stays below 2^31 (no wrap of the int the
-        # bilinear form uses); array holds every element the formula refers to
-        extra_pre.append('%s >= 0 && %s < 2147483648L && %s >= 0 && %s <= 16777216L' % (b, b, c, c))
-        last = '((%s + (long)(offset + n - 1) * %s) >> 16)' % (b, c)
-        extra_pre.append('(n > 0 ==> %s + (long)(offset + n - 1) * %s < 2147483648L)' % (b, c))
+        # 16.16 fixed point.  The source array has g_L elements and holds every element the formula refers to for
+        # k < n: stated per element (explicit conjunction), which needs a bound on n -- always a bounded stand-in.
+        if bounded_n is None:
+            bounded_n = 4
+        ghost_pre = 'long g_L;'
+        extra_pre.append('g_L >= 0 && g_L <= 1048576')
+        extra_pre.append('%s >= -2147483648L && %s <= 2147483647L && %s >= -2147483648L && %s <= 2147483647L' % (b, b, c, c))
+        need = 1 if k == 'ldresnear' else 2
+        for kk in range(bounded_n):
+            t = '(%s + (long)(offset + %d) * %s)' % (b, kk, c)
+            extra_pre.append('(%d < n ==> (%s >= 0 && %s < 2147483648L && (%s >> 16) + %d <= g_L))' % (kk, t, t, t, need))
+        src_count[0] = 'g_L'
         tmp = '(%s + (long)(offset + (long)__gk) * %s)' % (b, c)
         if k == 'ldresnear':
-            src_count[0] = '(n > 0 ? %s + 1 : 0)' % last
             srcs_override = [arr('src', 0, op.ssz[0], '(%s >> 16)' % tmp)]
         else:
-            src_count[0] = '(n > 0 ? %s + 2 : 0)' % last
             srcs_override = [arr('src', 0, op.ssz[0], '(%s >> 16)' % tmp),
                              arr('src', 0, op.ssz[0], '((%s >> 16) + 1)' % tmp),
                              '((%s >> 8) & 255)' % tmp]
@@ -168,10 +173,13 @@ def gen_unit(opname, mode='spec', tier='quick'):
         else:
             p = post_for(op, dests, srcs)
             P = p
-            if p is not None:
+            if p is not None and bounded_n is not None:
+                # bounded stand-in: explicit constant-index conjunction (lets CBMC share the multiplier of code and spec)
+                ens = ' && '.join('(%d < n ==> (%s))' % (kk, p.replace('__gk', str(kk))) for kk in range(bounded_n))
+            elif p is not None:
                 ens = '(__gk < (unsigned long)n ==> (%s))' % p
                 inv = '(__gk < (unsigned long)i ==> (%s))' % p
-    ghost_decl = ''
+    ghost_decl = locals().get('ghost_pre', '')
     acc_inv = None
     if k == 'acc':
         # n <= 64 = the largest chunk the driver passes.  The sum is specified through a ghost prefix-sum array
@@ -180,7 +188,7 @@ def gen_unit(opname, mode='spec', tier='quick'):
         req[0] = '0 <= n && n <= %d && 0 <= offset && offset <= %d' % (nb, NMAX)
         cell = '(*(unsigned int *)ex->dest_ptrs[0])'
         term = op.spec(*[arr('src', j, op.ssz[j], '__k') for j in range(ns)])
-        ghost_decl = 'unsigned int g_ps[%d];' % (nb + 1)
+        ghost_decl += 'unsigned int g_ps[%d];' % (nb + 1)
         req.append('g_ps[0] == 0u')
         req.append('__CPROVER_forall { int __k; (0 <= __k && __k < %d) ==> (__k < n ==> g_ps[__k + 1] == g_ps[__k] + %s) }' % (nb, term))
         if op.dsz[0] == 2:
@@ -196,6 +204,8 @@ def gen_unit(opname, mode='spec', tier='quick'):
             acc_inv = '(unsigned int)var12.i == g_ps[i] && 0 <= var12.i && var12.i <= 255 * i'
         else:
             acc_inv = '(unsigned int)var12.i == g_ps[i]'
+    if bounded_n is not None and k != 'acc':
+        req[0] = '0 <= n && n <= %d && 0 <= offset && offset <= %d' % (bounded_n, NMAX)
     lines = ['#include "%s/%s"' % (core.REPO, EMU_FILE), ghost_decl,
              'unsigned long __gk;', 'unsigned long nondet_ulong(void);',
              'void %s(OrcOpcodeExecutor *ex, int offset, int n)' % fn]
@@ -211,6 +221,9 @@ def gen_unit(opname, mode='spec', tier='quick'):
     path = os.path.join(GEN, '%s_%s.c' % (mode, fn))
     with open(path, 'w') as f:
         f.write('\n'.join(lines) + '\n')
+    if bounded_n is not None and k != 'acc':
+        unwind = bounded_n + 1
+        bounded = 'n <= %d per call, loop fully unwound (the unbounded loop-contract query is undecided on every back end)' % bounded_n
     if unwind is None:
         base_inv = '0 <= i && i <= n'
         loops = [{'function': fn, 'file': EMU_FILE, 'anchor': 'for (i = 0; i < n; i++)',
